@@ -12,12 +12,14 @@ structure Vis where
   prefs : List Nat
   indentSpec : Bool
   profiles : List Nat
+  /-- every `CSSParser` object with all its fields -/
+  parsers : List Parser
   deriving DecidableEq, Repr
 
-def G.vis (g : G) : Vis := ⟨g.raising, g.ser.id, g.ser.prefs, g.ser.indentSpec, g.profiles⟩
+def G.vis (g : G) : Vis := ⟨g.raising, g.ser.id, g.ser.prefs, g.ser.indentSpec, g.profiles, g.parsers⟩
 
 def Step.isExplicit : Step → Bool
-  | .setMode _ | .setPref _ _ | .setIndent _ | .newSer | .setProfiles _ => true
+  | .setMode _ | .setPref _ _ | .setIndent _ | .newSer | .setProfiles _ | .newParser _ => true
   | _ => false
 
 /-- cannot end in an exception: a log call that never raises, a serialisation -/
@@ -38,10 +40,11 @@ def quiet : Step → Bool
   | .setIndent _ => false
   | .newSer => false
   | .setProfiles _ => false
-  | .parseString _ _ body => quietL body
-  | .parseStyle _ _ body => quietL body
-  | .parseFile _ _ _ body => quietL body
-  | .parseUrl _ inner _ _ body => quietL inner && quietL body
+  | .newParser _ => false
+  | .parseString _ _ _ body => quietL body
+  | .parseStyle _ _ _ body => quietL body
+  | .parseFile _ _ _ _ body => quietL body
+  | .parseUrl _ _ inner _ _ body => quietL inner && quietL body
   | .direct body => quietL body
   | .combine src post serBody => quiet src && quietL post && quietL serBody && serBody.all calm
   | .serialize _ => true
@@ -62,10 +65,11 @@ def topOK (env : Env) : Step → Bool
   | .setIndent _ => true
   | .newSer => true
   | .setProfiles _ => true
-  | .parseString _ _ body => topOKL env body
-  | .parseStyle _ _ body => topOKL env body
-  | .parseFile _ _ _ body => topOKL env body
-  | .parseUrl _ inner _ _ body => topOKL env inner && topOKL env body
+  | .newParser _ => true
+  | .parseString _ _ _ body => topOKL env body
+  | .parseStyle _ _ _ body => topOKL env body
+  | .parseFile _ _ _ _ body => topOKL env body
+  | .parseUrl _ _ inner _ _ body => topOKL env inner && topOKL env body
   | .direct body => topOKL env body
   | .combine src post serBody => topOK env src && topOKL env post && topOKL env serBody
   | .serialize _ => true
@@ -106,14 +110,14 @@ def explicitOnly (env : Env) (fuel : Nat) : List Step → G → G
 identity of the serializer object, the counter for fresh identities -/
 def Agree (g g' : G) : Prop :=
   g.raising = g'.raising ∧ g.saved = g'.saved ∧ g.ser.prefs = g'.ser.prefs ∧ g.ser.indentSpec = g'.ser.indentSpec ∧
-  g.ser.selectors = g'.ser.selectors ∧ g.ser.selLevel = g'.ser.selLevel ∧ g.profiles = g'.profiles
+  g.profiles = g'.profiles ∧ g.parsers = g'.parsers
 
 theorem Agree.refl (g : G) : Agree g g := by simp [Agree]
 theorem Agree.symm {g g' : G} (h : Agree g g') : Agree g' g := by
   simp only [Agree] at *; simp [h]
 theorem Agree.trans {a b c : G} (h : Agree a b) (h' : Agree b c) : Agree a c := by
   simp only [Agree] at *
-  obtain ⟨h1, h2, h3, h4, h5, h6, h7⟩ := h
+  obtain ⟨h1, h2, h3, h4, h5, h6⟩ := h
   simp [*]
 
 /-! ### T12.1: quiet steps restore the mode, the serializer and its preferences, the profiles -/
@@ -129,20 +133,14 @@ theorem importLoad_obs (r : R) : (importLoad r).1.obs = r.obs := by
   · rfl
 
 /-- what a quiet step leaves as it was -/
-def Kept (g g' : G) : Prop :=
-  g'.vis = g.vis ∧ (g.ser.indentSpec = false → g'.ser.selectors = g.ser.selectors ∧ g'.ser.selLevel = g.ser.selLevel)
+def Kept (g g' : G) : Prop := g'.vis = g.vis
 
-theorem Kept.refl (g : G) : Kept g g := by simp [Kept]
+theorem Kept.refl (g : G) : Kept g g := rfl
 theorem Kept.trans {a b c : G} (h : Kept a b) (h' : Kept b c) : Kept a c := by
-  obtain ⟨h1, h2⟩ := h
-  obtain ⟨h3, h4⟩ := h'
-  refine ⟨h3.trans h1, ?_⟩
-  intro hi
-  have hb : b.ser.indentSpec = false := by
-    have := congrArg Vis.indentSpec h1
-    simp only [G.vis] at this
-    rw [this]; exact hi
-  exact ⟨(h4 hb).1.trans (h2 hi).1, (h4 hb).2.trans (h2 hi).2⟩
+  unfold Kept at *; rw [h', h]
+
+/-- the last thing an entry point does: hand the sheet / declaration to the caller -/
+theorem tail_kept (g : G) (obs : List Obs) : Kept g (R.mk (.ok ()) g obs).g := Kept.refl g
 
 theorem seqR_kept {g : G} {a : R} {k : G → R} (ha : Kept g a.g) (hk : ∀ g1, Kept g1 (k g1).g) :
     Kept g (seqR a k).g := by
@@ -167,9 +165,8 @@ theorem importTwice_kept (attempt : G → R) (g : G) (h : ∀ g1, Kept g1 (attem
 theorem withParseSetting_kept (p : Parser) (body : G → R) (g : G) (hb : ∀ g1, Kept g1 (body g1).g) :
     Kept g (withParseSetting p body g).g := by
   unfold withParseSetting
-  have h := hb { g with raising := p.raising }
-  obtain ⟨h1, h2⟩ := h
-  simp only [Kept, G.vis, Vis.mk.injEq] at h1 h2 ⊢
+  have h1 := hb { g with raising := p.raising }
+  simp only [Kept, G.vis, Vis.mk.injEq] at h1 ⊢
   simp_all
 
 theorem decode_kept (inp : Input) (g : G) (k : G → R) (hk : ∀ g1, Kept g1 (k g1).g) : Kept g (decode inp g k).g := by
@@ -177,26 +174,6 @@ theorem decode_kept (inp : Input) (g : G) (k : G → R) (hk : ∀ g1, Kept g1 (k
   split
   · exact Kept.refl g
   · exact hk g
-
-theorem serializeRules_off (s : Ser) (rules : List SelRec) (h : s.indentSpec = false) :
-    (serializeRules s rules).1 = s := by
-  induction rules generalizing s with
-  | nil => rfl
-  | cons r rs ih =>
-    simp only [serializeRules, memoStep, h, Bool.false_eq_true, if_false]
-    exact ih s h
-
-theorem serializeRules_vis (s : Ser) (rules : List SelRec) :
-    (serializeRules s rules).1.id = s.id ∧ (serializeRules s rules).1.prefs = s.prefs ∧
-    (serializeRules s rules).1.indentSpec = s.indentSpec := by
-  induction rules generalizing s with
-  | nil => simp [serializeRules]
-  | cons r rs ih =>
-    simp only [serializeRules]
-    have := ih (memoStep s r)
-    have hm : (memoStep s r).id = s.id ∧ (memoStep s r).prefs = s.prefs ∧ (memoStep s r).indentSpec = s.indentSpec := by
-      unfold memoStep; split <;> simp
-    simp [this, hm]
 
 theorem calm_ok (env : Env) (fuel : Nat) : ∀ (l : List Step) (g : G), l.all calm = true →
     (runSteps env fuel l g).res = .ok () := by
@@ -245,21 +222,25 @@ theorem runStep_kept (env : Env) (fuel : Nat) : ∀ (s : Step) (g : G), quiet s 
   | .setIndent _, _, h => by simp [quiet] at h
   | .newSer, _, h => by simp [quiet] at h
   | .setProfiles _, _, h => by simp [quiet] at h
-  | .parseString p inp body, g, h => by
+  | .newParser _, _, h => by simp [quiet] at h
+  | .parseString p v inp body, g, h => by
     simp only [quiet] at h
     simp only [runStep]
-    exact withParseSetting_kept p _ g fun g1 => decode_kept inp g1 _ fun g2 => runSteps_kept env fuel body g2 h
-  | .parseStyle p inp body, g, h => by
+    exact withParseSetting_kept _ _ g fun g1 => decode_kept inp g1 _ fun g2 =>
+      seqR_kept (runSteps_kept env fuel body g2 h) fun g3 => tail_kept g3 _
+  | .parseStyle p v inp body, g, h => by
     simp only [quiet] at h
     simp only [runStep]
-    exact withParseSetting_kept p _ g fun g1 => decode_kept inp g1 _ fun g2 => runSteps_kept env fuel body g2 h
-  | .parseFile p found inp body, g, h => by
+    exact withParseSetting_kept _ _ g fun g1 => decode_kept inp g1 _ fun g2 =>
+      seqR_kept (runSteps_kept env fuel body g2 h) fun g3 => tail_kept g3 _
+  | .parseFile p v found inp body, g, h => by
     simp only [quiet] at h
     simp only [runStep]
     split
     · exact Kept.refl g
-    · exact withParseSetting_kept p _ g fun g1 => decode_kept inp g1 _ fun g2 => runSteps_kept env fuel body g2 h
-  | .parseUrl p inner res inp body, g, h => by
+    · exact withParseSetting_kept _ _ g fun g1 => decode_kept inp g1 _ fun g2 =>
+        seqR_kept (runSteps_kept env fuel body g2 h) fun g3 => tail_kept g3 _
+  | .parseUrl p v inner res inp body, g, h => by
     simp only [quiet, Bool.and_eq_true] at h
     simp only [runStep]
     apply seqR_kept (Kept.refl g)
@@ -270,7 +251,8 @@ theorem runStep_kept (env : Env) (fuel : Nat) : ∀ (s : Step) (g : G), quiet s 
     | raises e => exact Kept.refl _
     | nothing => exact Kept.refl _
     | content =>
-      exact withParseSetting_kept p _ g2 fun g1 => decode_kept inp g1 _ fun g2 => runSteps_kept env fuel body g2 h.2
+      exact withParseSetting_kept _ _ g2 fun g1 => decode_kept inp g1 _ fun g2 =>
+        seqR_kept (runSteps_kept env fuel body g2 h.2) fun g3 => tail_kept g3 _
   | .direct body, g, h => by
     simp only [quiet] at h
     simp only [runStep]
@@ -285,22 +267,15 @@ theorem runStep_kept (env : Env) (fuel : Nat) : ∀ (s : Step) (g : G), quiet s 
     intro g2
     -- the serialisation phase cannot raise, so the old serializer is put back
     have hok := calm_ok env fuel serBody
-      { g2 with ser := ⟨g2.nextSer, freshPrefs, false, [], 0⟩, nextSer := g2.nextSer + 1 } h4
-    have hk := runSteps_kept env fuel serBody
-      { g2 with ser := ⟨g2.nextSer, freshPrefs, false, [], 0⟩, nextSer := g2.nextSer + 1 } h3
+      { g2 with ser := ⟨g2.nextSer, freshPrefs, false⟩, nextSer := g2.nextSer + 1 } h4
+    have hk1 := runSteps_kept env fuel serBody
+      { g2 with ser := ⟨g2.nextSer, freshPrefs, false⟩, nextSer := g2.nextSer + 1 } h3
     unfold seqR
     simp only [hok]
-    obtain ⟨hk1, _⟩ := hk
     simp only [Kept, G.vis, Vis.mk.injEq] at hk1 ⊢
     simp_all
   | .serialize rules, g, _ => by
-    simp only [runStep]
-    have h1 := serializeRules_vis g.ser rules
-    simp only [Kept, G.vis, Vis.mk.injEq]
-    refine ⟨by simp [h1], ?_⟩
-    intro hi
-    rw [serializeRules_off g.ser rules hi]
-    simp
+    simp only [runStep]; exact Kept.refl g
 theorem runSteps_kept (env : Env) (fuel : Nat) : ∀ (l : List Step) (g : G), quietL l = true → Kept g (runSteps env fuel l g).g
   | [], g, _ => by simp only [runSteps]; exact Kept.refl g
   | s :: ss, g, h => by
@@ -391,21 +366,25 @@ theorem runStep_saved (env : Env) (hwf : wfEnv env = true) (fuel : Nat) : ∀ (s
   | .setIndent _, g, _, hg => by simp only [runStep]; intro _; exact hg
   | .newSer, g, _, hg => by simp only [runStep]; intro _; exact hg
   | .setProfiles _, g, _, hg => by simp only [runStep]; intro _; exact hg
-  | .parseString p inp body, g, h, hg => by
+  | .newParser _, g, _, hg => by simp only [runStep]; intro _; exact hg
+  | .parseString p v inp body, g, h, hg => by
     simp only [topOK] at h
     simp only [runStep]
-    exact withParseSetting_saved p _ g (decode_saved inp _ _ hg (runSteps_saved env hwf fuel body _ h hg))
-  | .parseStyle p inp body, g, h, hg => by
+    exact withParseSetting_saved _ _ g (decode_saved inp _ _ hg
+      (seqR_saved (runSteps_saved env hwf fuel body _ h hg) fun g3 hg3 _ => hg3))
+  | .parseStyle p v inp body, g, h, hg => by
     simp only [topOK] at h
     simp only [runStep]
-    exact withParseSetting_saved p _ g (decode_saved inp _ _ hg (runSteps_saved env hwf fuel body _ h hg))
-  | .parseFile p found inp body, g, h, hg => by
+    exact withParseSetting_saved _ _ g (decode_saved inp _ _ hg
+      (seqR_saved (runSteps_saved env hwf fuel body _ h hg) fun g3 hg3 _ => hg3))
+  | .parseFile p v found inp body, g, h, hg => by
     simp only [topOK] at h
     simp only [runStep]
     split
     · intro _; exact hg
-    · exact withParseSetting_saved p _ g (decode_saved inp _ _ hg (runSteps_saved env hwf fuel body _ h hg))
-  | .parseUrl p inner res inp body, g, h, hg => by
+    · exact withParseSetting_saved _ _ g (decode_saved inp _ _ hg
+        (seqR_saved (runSteps_saved env hwf fuel body _ h hg) fun g3 hg3 _ => hg3))
+  | .parseUrl p v inner res inp body, g, h, hg => by
     simp only [topOK, Bool.and_eq_true] at h
     simp only [runStep]
     apply seqR_saved (fun _ => hg)
@@ -416,7 +395,8 @@ theorem runStep_saved (env : Env) (hwf : wfEnv env = true) (fuel : Nat) : ∀ (s
     | raises e => intro _; exact hg2
     | nothing => intro _; exact hg2
     | content =>
-      exact withParseSetting_saved p _ g2 (decode_saved inp _ _ hg2 (runSteps_saved env hwf fuel body _ h.2 hg2))
+      exact withParseSetting_saved _ _ g2 (decode_saved inp _ _ hg2
+        (seqR_saved (runSteps_saved env hwf fuel body _ h.2 hg2) fun g3 hg3 _ => hg3))
   | .direct body, g, h, hg => by
     simp only [topOK] at h
     simp only [runStep]
@@ -429,7 +409,7 @@ theorem runStep_saved (env : Env) (hwf : wfEnv env = true) (fuel : Nat) : ∀ (s
     intro g1 hg1
     apply seqR_saved (runSteps_saved env hwf fuel post g1 h2 hg1)
     intro g2 hg2
-    apply seqR_saved (runSteps_saved env hwf fuel serBody { g2 with ser := ⟨g2.nextSer, freshPrefs, false, [], 0⟩, nextSer := g2.nextSer + 1 } h3 hg2)
+    apply seqR_saved (runSteps_saved env hwf fuel serBody { g2 with ser := ⟨g2.nextSer, freshPrefs, false⟩, nextSer := g2.nextSer + 1 } h3 hg2)
     intro g3 hg3 _
     exact hg3
   | .serialize rules, g, _, hg => by
@@ -460,8 +440,8 @@ theorem seqR_sim {a a' : R} {k k' : G → R} (ha : Sim a a') (hk : ∀ g g', Agr
 
 theorem Agree.setRaising {a b : G} (h : Agree a b) (x : Bool) :
     Agree { a with raising := x } { b with raising := x } := by
-  obtain ⟨_, h2, h3, h4, h5, h6, h7⟩ := h
-  exact ⟨rfl, h2, h3, h4, h5, h6, h7⟩
+  obtain ⟨_, h2, h3, h4, h5, h6⟩ := h
+  exact ⟨rfl, h2, h3, h4, h5, h6⟩
 
 theorem withParseSetting_sim (p : Parser) (body body' : G → R) (g g' : G) (hg : Agree g g')
     (hb : ∀ g g', Agree g g' → Sim (body g) (body' g')) :
@@ -504,29 +484,20 @@ theorem decode_sim (inp : Input) (g g' : G) (k k' : G → R) (hg : Agree g g') (
   · exact ⟨rfl, rfl, hg⟩
   · exact hk
 
-theorem memoStep_agree (s s' : Ser) (r : SelRec) (h1 : s.indentSpec = s'.indentSpec)
-    (h2 : s.selectors = s'.selectors) (h3 : s.selLevel = s'.selLevel) (h4 : s.prefs = s'.prefs) :
-    (memoStep s r).indentSpec = (memoStep s' r).indentSpec ∧ (memoStep s r).selectors = (memoStep s' r).selectors ∧
-    (memoStep s r).selLevel = (memoStep s' r).selLevel ∧ (memoStep s r).prefs = (memoStep s' r).prefs := by
-  unfold memoStep
-  rw [← h1, ← h2, ← h3]
-  split <;> simp [h1, h2, h3, h4]
+theorem parser_of_agree {g g' : G} (h : Agree g g') (p : PRef) : g.parser p = g'.parser p := by
+  cases p with
+  | obj i => simp [G.parser, h.2.2.2.2.2]
+  | fresh q => rfl
 
-theorem serializeRules_agree (rules : List SelRec) : ∀ (s s' : Ser), s.indentSpec = s'.indentSpec →
-    s.selectors = s'.selectors → s.selLevel = s'.selLevel → s.prefs = s'.prefs →
-    (serializeRules s rules).2 = (serializeRules s' rules).2 ∧
-    (serializeRules s rules).1.indentSpec = (serializeRules s' rules).1.indentSpec ∧
-    (serializeRules s rules).1.selectors = (serializeRules s' rules).1.selectors ∧
-    (serializeRules s rules).1.selLevel = (serializeRules s' rules).1.selLevel ∧
-    (serializeRules s rules).1.prefs = (serializeRules s' rules).1.prefs := by
-  induction rules with
-  | nil => intro s s' h1 h2 h3 h4; simp [serializeRules, *]
-  | cons r rs ih =>
-    intro s s' h1 h2 h3 h4
-    obtain ⟨m1, m2, m3, m4⟩ := memoStep_agree s s' r h1 h2 h3 h4
-    have := ih (memoStep s r) (memoStep s' r) m1 m2 m3 m4
-    simp only [serializeRules]
-    simp [this, m3]
+/-- the body of the four entry points -/
+theorem parseBody_sim (env : Env) (fuel : Nat) (pa : Parser) (b : Bool) (inp : Input) (body : List Step) (g g' : G)
+    (h : Agree g g') (hb : ∀ g g', Agree g g' → Sim (runSteps env fuel body g) (runSteps env fuel body g')) :
+    Sim (withParseSetting pa (fun g1 => decode inp g1 fun g1 =>
+          seqR (runSteps env fuel body g1) fun g2 => ⟨.ok (), g2, [.validating b]⟩) g)
+        (withParseSetting pa (fun g1 => decode inp g1 fun g1 =>
+          seqR (runSteps env fuel body g1) fun g2 => ⟨.ok (), g2, [.validating b]⟩) g') :=
+  withParseSetting_sim pa _ _ g g' h fun g1 g1' h1 => decode_sim inp g1 g1' _ _ h1
+    (seqR_sim (hb g1 g1' h1) fun g2 g2' h2 => ⟨rfl, rfl, h2⟩)
 
 theorem toPG_eq_of_agree {g g' : G} (h : Agree g g') : g.toPG = { g'.toPG with pushed := g.pushed } := by
   obtain ⟨h1, h2, _⟩ := h
@@ -578,18 +549,23 @@ theorem runStep_sim (env : Env) (fuel : Nat) : ∀ (s : Step) (g g' : G), Agree 
     simp only [runStep]; refine ⟨rfl, rfl, ?_⟩; simp only [Agree] at h ⊢; simp [h]
   | .setProfiles _, g, g', h => by
     simp only [runStep]; refine ⟨rfl, rfl, ?_⟩; simp only [Agree] at h ⊢; simp [h]
-  | .parseString p inp body, g, g', h => by
+  | .newParser _, g, g', h => by
+    simp only [runStep]; refine ⟨rfl, rfl, ?_⟩; simp only [Agree] at h ⊢; simp [h]
+  | .parseString p v inp body, g, g', h => by
     simp only [runStep]
-    exact withParseSetting_sim p _ _ g g' h fun g1 g1' h1 => decode_sim inp g1 g1' _ _ h1 (runSteps_sim env fuel body g1 g1' h1)
-  | .parseStyle p inp body, g, g', h => by
+    rw [parser_of_agree h p]
+    exact parseBody_sim env fuel _ _ inp body g g' h (runSteps_sim env fuel body)
+  | .parseStyle p v inp body, g, g', h => by
     simp only [runStep]
-    exact withParseSetting_sim p _ _ g g' h fun g1 g1' h1 => decode_sim inp g1 g1' _ _ h1 (runSteps_sim env fuel body g1 g1' h1)
-  | .parseFile p found inp body, g, g', h => by
+    rw [parser_of_agree h p]
+    exact parseBody_sim env fuel _ _ inp body g g' h (runSteps_sim env fuel body)
+  | .parseFile p v found inp body, g, g', h => by
     simp only [runStep]
     split
     · exact ⟨rfl, rfl, h⟩
-    · exact withParseSetting_sim p _ _ g g' h fun g1 g1' h1 => decode_sim inp g1 g1' _ _ h1 (runSteps_sim env fuel body g1 g1' h1)
-  | .parseUrl p inner res inp body, g, g', h => by
+    · rw [parser_of_agree h p]
+      exact parseBody_sim env fuel _ _ inp body g g' h (runSteps_sim env fuel body)
+  | .parseUrl p v inner res inp body, g, g', h => by
     simp only [runStep]
     refine seqR_sim (a := ⟨.ok (), g, [.seen g.raising]⟩) (a' := ⟨.ok (), g', [.seen g'.raising]⟩) ⟨rfl, ?_, h⟩ ?_
     · simp [h.1]
@@ -600,7 +576,9 @@ theorem runStep_sim (env : Env) (fuel : Nat) : ∀ (s : Step) (g g' : G), Agree 
     | raises e => exact ⟨rfl, rfl, h2⟩
     | nothing => exact ⟨rfl, rfl, h2⟩
     | content =>
-      exact withParseSetting_sim p _ _ g2 g2' h2 fun g1 g1' h1 => decode_sim inp g1 g1' _ _ h1 (runSteps_sim env fuel body g1 g1' h1)
+      simp only []
+      rw [parser_of_agree h2 p]
+      exact parseBody_sim env fuel _ _ inp body g2 g2' h2 (runSteps_sim env fuel body)
   | .direct body, g, g', h => by
     simp only [runStep]
     exact runSteps_sim env fuel body g g' h
@@ -610,8 +588,8 @@ theorem runStep_sim (env : Env) (fuel : Nat) : ∀ (s : Step) (g g' : G), Agree 
     intro g1 g1' h1
     apply seqR_sim (runSteps_sim env fuel post g1 g1' h1)
     intro g2 g2' h2
-    have hin : Agree { g2 with ser := ⟨g2.nextSer, freshPrefs, false, [], 0⟩, nextSer := g2.nextSer + 1 }
-        { g2' with ser := ⟨g2'.nextSer, freshPrefs, false, [], 0⟩, nextSer := g2'.nextSer + 1 } := by
+    have hin : Agree { g2 with ser := ⟨g2.nextSer, freshPrefs, false⟩, nextSer := g2.nextSer + 1 }
+        { g2' with ser := ⟨g2'.nextSer, freshPrefs, false⟩, nextSer := g2'.nextSer + 1 } := by
       simp only [Agree] at h2 ⊢; simp [h2]
     apply seqR_sim (runSteps_sim env fuel serBody _ _ hin)
     intro g3 g3' h3
@@ -620,10 +598,8 @@ theorem runStep_sim (env : Env) (fuel : Nat) : ∀ (s : Step) (g g' : G), Agree 
     simp [h2, h3]
   | .serialize rules, g, g', h => by
     simp only [runStep]
-    have hs := serializeRules_agree rules g.ser g'.ser h.2.2.2.1 h.2.2.2.2.1 h.2.2.2.2.2.1 h.2.2.1
-    refine ⟨rfl, by simp [hs.1], ?_⟩
-    simp only [Agree] at h ⊢
-    simp [h, hs]
+    rw [h.2.2.2.1]
+    exact ⟨rfl, rfl, h⟩
 theorem runSteps_sim (env : Env) (fuel : Nat) : ∀ (l : List Step) (g g' : G), Agree g g' →
     Sim (runSteps env fuel l g) (runSteps env fuel l g')
   | [], g, g', h => by simp only [runSteps]; exact ⟨rfl, rfl, h⟩
@@ -634,43 +610,29 @@ end
 
 /-! ### histories -/
 
-theorem Agree.of_kept {g g1 : G} (hk : Kept g g1) (hs : g.saved = []) (hs1 : g1.saved = [])
-    (hi : g.ser.indentSpec = false) : Agree g1 g := by
-  obtain ⟨hv, hm⟩ := hk
-  obtain ⟨m1, m2⟩ := hm hi
-  simp only [G.vis, Vis.mk.injEq] at hv
-  exact ⟨hv.1, by rw [hs, hs1], hv.2.2.1, hv.2.2.2.1, m1, m2, hv.2.2.2.2⟩
+theorem Agree.of_kept {g g1 : G} (hk : Kept g g1) (hs : g.saved = []) (hs1 : g1.saved = []) : Agree g1 g := by
+  simp only [Kept, G.vis, Vis.mk.injEq] at hk
+  exact ⟨hk.1, by rw [hs, hs1], hk.2.2.1, hk.2.2.2.1, hk.2.2.2.2.1, hk.2.2.2.2.2⟩
 
-theorem explicit_step (env : Env) (fuel : Nat) (s : Step) (g : G) (he : s.isExplicit = true)
-    (hn : s ≠ .setIndent true) (hs : g.saved = []) (hi : g.ser.indentSpec = false) :
-    (runStep env fuel s g).g.saved = [] ∧ (runStep env fuel s g).g.ser.indentSpec = false := by
-  cases s <;> simp only [Step.isExplicit, Bool.false_eq_true] at he
-  · simp [runStep, hs, hi]
-  · simp [runStep, hs, hi]
-  · rename_i b
-    cases b
-    · simp [runStep, hs]
-    · exact absurd rfl hn
-  · simp [runStep, hs]
-  · simp [runStep, hs, hi]
+theorem explicit_step (env : Env) (fuel : Nat) (s : Step) (g : G) (he : s.isExplicit = true) (hs : g.saved = []) :
+    (runStep env fuel s g).g.saved = [] := by
+  cases s <;> simp only [Step.isExplicit, Bool.false_eq_true] at he <;> simp [runStep, hs]
 
 /-- a history of library calls and explicit settings ends in the state that the explicit settings alone
 produce — up to `Agree`, i.e. up to what no later call can see -/
 theorem history_agree (env : Env) (hwf : wfEnv env = true) (fuel : Nat) : ∀ (h : List Step) (g g' : G),
     (∀ s ∈ h, s.isExplicit = true ∨ (quiet s = true ∧ topOK env s = true)) →
-    (∀ s ∈ h, s ≠ .setIndent true) →
-    Agree g g' → g.saved = [] → g.ser.indentSpec = false →
+    Agree g g' → g.saved = [] →
     (∀ x ∈ (runHistory env fuel h g).2, hasArt x.2 = false) →
     Agree (runHistory env fuel h g).1 (explicitOnly env fuel h g') := by
   intro h
   induction h with
-  | nil => intro g g' _ _ ha _ _ _; simpa [runHistory, explicitOnly] using ha
+  | nil => intro g g' _ ha _ _; simpa [runHistory, explicitOnly] using ha
   | cons s ss ih =>
-    intro g g' hq hn ha hs hi hart
+    intro g g' hq ha hs hart
     simp only [runHistory, explicitOnly]
     have hq' : ∀ s ∈ ss, s.isExplicit = true ∨ (quiet s = true ∧ topOK env s = true) :=
       fun x hx => hq x (List.mem_cons_of_mem _ hx)
-    have hn' : ∀ s ∈ ss, s ≠ .setIndent true := fun x hx => hn x (List.mem_cons_of_mem _ hx)
     have hart0 : hasArt (runStep env fuel s g).obs = false := by
       have := hart ((runStep env fuel s g).res, (runStep env fuel s g).obs) (by simp [runHistory])
       exact this
@@ -678,17 +640,14 @@ theorem history_agree (env : Env) (hwf : wfEnv env = true) (fuel : Nat) : ∀ (h
       fun x hx => hart x (by simp only [runHistory]; exact List.mem_cons_of_mem _ hx)
     rcases hq s (List.mem_cons_self) with he | ⟨hqs, hts⟩
     · simp only [he, if_true]
-      obtain ⟨e1, e2⟩ := explicit_step env fuel s g he (hn s List.mem_cons_self) hs hi
-      exact ih _ _ hq' hn' (runStep_sim env fuel s g g' ha).2.2 e1 e2 hart'
+      exact ih _ _ hq' (runStep_sim env fuel s g g' ha).2.2 (explicit_step env fuel s g he hs) hart'
     · have hne : s.isExplicit = false := by
         cases s <;> simp_all [Step.isExplicit, quiet]
       simp only [hne, Bool.false_eq_true, if_false]
       have hk := runStep_kept env fuel s g hqs
       have hsv := runStep_saved env hwf fuel s g hts hs hart0
-      have hag : Agree (runStep env fuel s g).g g := Agree.of_kept hk hs hsv hi
-      have hi1 : (runStep env fuel s g).g.ser.indentSpec = false := by
-        rw [← hag.2.2.2.1] at hi; exact hi
-      exact ih _ _ hq' hn' (hag.trans ha) hsv hi1 hart'
+      have hag : Agree (runStep env fuel s g).g g := Agree.of_kept hk hs hsv
+      exact ih _ _ hq' (hag.trans ha) hsv hart'
 
 theorem seqR_head (a : R) (k : G → R) (x : Obs) (h : a.obs.head? = some x) :
     (seqR a k).obs.head? = some x := by
